@@ -24,6 +24,16 @@ PyTask = asyncio.tasks._PyTask
 PyFuture = asyncio.futures._PyFuture
 
 
+
+class Item(tuple):
+    """(sender, index) with the truth value of a betterproto message: every even-numbered item is FALSY, like a message whose
+    fields are all default (what a gRPC stream carries). An item is an item whatever bool() says of it (seeded change C12-5)."""
+    __slots__ = ()
+
+    def __bool__(self):
+        return self[1] % 2 == 1
+
+
 class Infeasible(Exception):
     pass
 
@@ -139,13 +149,13 @@ class Run:
             kind = op[0]
             if kind == "send":
                 was_closed = ch._closed
-                await ch.send((tid, k))
+                await ch.send(Item((tid, k)))
                 k += 1
                 if was_closed:
                     self.bad_send_after_close.append((tid, idx))
             elif kind == "send_from":
                 was_closed = ch._closed
-                items = [(tid, k + i) for i in range(op[1])]
+                items = [Item((tid, k + i)) for i in range(op[1])]
                 await ch.send_from(items, close=op[2])
                 k += op[1]
                 if was_closed:
